@@ -629,6 +629,9 @@ where
         }
         self.metrics.record_execution_attempt();
 
+        // An error is only authoritative if this attempt could not have read speculative state:
+        // every predecessor was already committed when it started.
+        let started_at_commit_head = self.scheduler_ctx.committed_idx() == txid;
         let tx_env = self.txs[txid].clone();
         let IncarnationExecution { result, accesses } =
             executor.execute_incarnation(tx_version.clone(), tx_env);
@@ -775,7 +778,7 @@ where
                     vpoint!(SCHED, "E_HeadCheck");
                     vemit!(SCHED, "E_HeadCheck", "tx" => txid,
                         "com" => self.scheduler_ctx.committed_idx(), "invalid" => invalid_transaction);
-                    if self.scheduler_ctx.committed_idx() == txid {
+                    if started_at_commit_head {
                         if invalid_transaction {
                             self.abort(AbortReason::FallbackSequential);
                         } else {
